@@ -261,6 +261,10 @@ def map_update(ex, ins):
     vc.heap_sorts[hn + '.val'] = hs_val
     ex.oblige('nil', 'assignment to entry in nil map', ex.reach, not_(eq(m.term, '0')), ['C03'], ins.get('line', 0))
     vc.assume(not_(eq(m.term, '0')), ex.reach)
+    # frame: an assigns clause cannot name a map, so a function with one may only update maps it allocated itself
+    topc = ex.top.contract
+    if topc is not None and topc.assigns is not None:
+        ex.oblige('frame', 'update of a map that this call did not allocate', ex.reach, '(>= %s %s)' % (m.term, ex.top.entry_state.alloc), ['C19'], ins.get('line', 0))
     ch = ex.st.get(hn + '.has', hs_has)
     cv = ex.st.get(hn + '.val', hs_val)
     ex.st.set(hn + '.has', vc.define(hn + '.has', hs_has, '(store %s %s (store (select %s %s) %s true))' % (ch, m.term, ch, m.term, k.term)))
@@ -587,6 +591,10 @@ def builder_get(ex, ref):
 def builder_set(ex, ref, val):
     vc = ex.vc
     vc.heap_sorts['B.builder'] = 'Arr:Str'
+    # frame: an assigns clause cannot name a builder, so a function with one may only write builders it allocated itself
+    topc = ex.top.contract
+    if topc is not None and topc.assigns is not None:
+        ex.oblige('frame', 'write to a string builder that this call did not allocate', ex.reach, '(>= %s %s)' % (ref, ex.top.entry_state.alloc), ['C19'], 0)
     ex.st.set('B.builder', vc.define('B.builder', 'Arr:Str', '(store %s %s %s)' % (ex.st.get('B.builder', 'Arr:Str'), ref, val)))
 
 
